@@ -369,6 +369,15 @@ fn subject_job(kind: Kind, len: usize) -> Job {
             format!("after [{}]: {name}.is_empty()={} len()={}", hist.join(" "), h.is_empty(), h.len()),
           );
         }
+        // while open: not "empty" while somebody is attached, and every attached
+        // subscriber is counted (closed ones that were never pruned may be as well)
+        let live = model.iter().filter(|m| m.live).count();
+        if !fin && live > 0 && (h.is_empty() || h.len() < live) {
+          obs.fail(
+            format!("c06:{kind:?}:api-empty"),
+            format!("after [{}]: {live} subscribers are attached but {name}.is_empty()={} len()={}", hist.join(" "), h.is_empty(), h.len()),
+          );
+        }
         if !fin && model.is_empty() && (!h.is_empty() || h.len() != 0) {
           obs.fail(
             format!("c06:{kind:?}:api-empty"),
@@ -438,7 +447,7 @@ pub fn plan(tier: Tier) -> Plan {
       engine: "E1 opseq".into(),
       rule: "every operation sequence up to the length bound over {subscribe, subscribe-with-a-callback-that-subscribes, unsubscribe(k), next via handle 0/1, complete/error via clone 0/1, retain, unsubscribe-subject} with at most 3 (+ callback-made) subscribers, on Subject, SubjectThreads, MutRefItemSubject, MutRefErrSubject, MutRefItemErrSubject; after every operation every probe trace must equal the list model (live list + joined-during-emission rule) and is_finished/is_closed/is_empty/len must answer as stated; non-trivial = at least one notification reached a probe".into(),
       bounds: json!({"ops_len_subject": l_main, "ops_len_mut_ref_variants": l_ref, "subscribers": MAX_SUBS}),
-      assumptions: vec!["len() while closed subscribers are merely not yet retained is not asserted".into()],
+      assumptions: vec!["len() while closed subscribers are merely not yet retained is only bounded from below (every attached subscriber is counted)".into()],
     },
   }
 }
